@@ -52,3 +52,13 @@ MUTANTS["C01"] = [
     ("affected-children-dropped-when-moved", "annet/annlib/rulebook/common.py", "        key = Op.ADDED if diff.get(Op.ADDED) else Op.MOVED\n        # При модификации строки удаление нас не интересует, добавление проходит как affected\n        yield (True, diff[key][0][\"row\"], diff[key][0][\"children\"])",
      "        key = Op.ADDED if diff.get(Op.ADDED) else Op.MOVED\n        yield (True, diff[key][0][\"row\"], diff[key][0][\"children\"] if key == Op.ADDED else None)"),
 ]
+
+MUTANTS["C06"] = [
+    ("children-from-first-match-only", "annet/annlib/patching.py", "        for (rule, is_cr_allowed) in map(operator.itemgetter(0), matches):\n            if is_cr_allowed:", "        for (rule, is_cr_allowed) in map(operator.itemgetter(0), matches[:1]):\n            if is_cr_allowed:"),
+    ("global-inheritance-dropped", "annet/annlib/patching.py", '    global_children = merge_dicts(global_children, rules["global"])\n', '    global_children = merge_dicts(global_children, rules["global"]) if not local_children else global_children\n'),
+    ("reverse-regexp-unused", "annet/annlib/patching.py", '    for regexp_key in ["direct_regexp", "reverse_regexp"]:', '    for regexp_key in ["direct_regexp"]:'),
+    ("fatal-acl-swallowed-nested", "annet/annlib/patching.py", "                    fatal_acl=fatal_acl,\n                    exclusive=exclusive,", "                    fatal_acl=False,\n                    exclusive=exclusive,"),
+    ("cant_delete-any", "annet/annlib/patching.py", '            if not (match["is_reverse"] and all(match["attrs"]["cant_delete"])):', '            if not (match["is_reverse"] and any(match["attrs"]["cant_delete"])):'),
+    ("prio-ignored", "annet/annlib/patching.py", '                    rule["attrs"]["prio"],\n', '                    0,\n'),
+    ("interface-default-off", "annet/annlib/rbparser/acl.py", '[raw_rule.startswith("interface")]', '[False]'),
+]
